@@ -117,6 +117,11 @@ def check_equations(ctx, bp):
         if U(s.targets[0]).replace(' ', '') in ('messages[%s,%s]' % (i, j), 'messages[(%s,%s)]' % (i, j)):
             msg_stmt = s
             v = s.value
+            # equivalent spelling: project onto the separator with log-sum-exp aggregation
+            if isinstance(v, ast.Call) and isinstance(v.func, ast.Attribute) and v.func.attr == 'project' and len(v.args) >= 1 \
+                    and any(k.arg == 'agg' and isinstance(k.value, ast.Constant) and k.value.value == 'logsumexp' for k in v.keywords) \
+                    and U(v.args[0]).replace(' ', '') in ('self.sep_axes[%s,%s]' % (i, j), 'self.sep_axes[(%s,%s)]' % (i, j)):
+                ok_msg = True
             if isinstance(v, ast.Call) and isinstance(v.func, ast.Attribute) and v.func.attr == 'logsumexp' and len(v.args) == 1:
                 sep = v.args[0]
                 sd = text.get(U(sep))
